@@ -561,10 +561,16 @@ func (p *Parser) evaluateBuiltInFunction(tokenType lexer.TokenType, keyword stri
 	// Evaluate arguments if it's a print call with arguments.
 	if nextToken.Type() != lexer.CLOSING_ROUND_BRACKET {
 		for {
+			exprToken := p.peek()
 			expr, err := p.evaluateExpression(ctx)
 
 			if err != nil {
 				return nil, err
+			}
+
+			// A function call without return value cannot be used as an argument.
+			if expr.ValueType().DataType() == DATA_TYPE_UNKNOWN {
+				return nil, p.expectedError(fmt.Sprintf("value as argument for %s", keyword), exprToken)
 			}
 			expressions = append(expressions, expr)
 			nextToken = p.peek()
